@@ -191,8 +191,17 @@ func verifPathOf(d protoreflect.Descriptor) ([]int32, bool) {
 		p, ok := verifPathOf(x.parent)
 		return append(p, 3, int32(x.idx)), ok
 	case *VerifField:
+		if x.ext != nil {
+			return []int32{7, int32(x.idx)}, true
+		}
 		p, ok := verifPathOf(x.msg)
 		return append(p, 2, int32(x.idx)), ok
+	case verifExtension:
+		return []int32{7, int32(x.idx)}, true
+	case *VerifService:
+		return []int32{6, int32(x.idx)}, true
+	case *VerifMethod:
+		return []int32{6, int32(x.svc.idx), 2, int32(x.idx)}, true
 	case *VerifEnum:
 		if x.parent == nil {
 			return []int32{5, int32(x.idx)}, true
@@ -228,7 +237,12 @@ func (s verifSourceLocations) ByDescriptor(d protoreflect.Descriptor) protorefle
 			out := protoreflect.SourceLocation{LeadingComments: loc.GetLeadingComments(), TrailingComments: loc.GetTrailingComments()}
 			if len(loc.Span) > 0 {
 				out.StartLine = int(loc.Span[0])
+				out.EndLine = int(loc.Span[0])
 			}
+			if len(loc.Span) == 4 {
+				out.EndLine = int(loc.Span[2])
+			}
+			out.LeadingDetachedComments = loc.LeadingDetachedComments
 			return out
 		}
 	}
@@ -299,19 +313,37 @@ type VerifField struct {
 	msg   *VerifMessage
 	idx   int
 	oneof *VerifOneof
+	ext   *VerifFile // set for a file-level extension field: the declaring file (msg is the extendee)
 }
 
 func (f *VerifField) Name() protoreflect.Name { return protoreflect.Name(f.fd.GetName()) }
 func (f *VerifField) FullName() protoreflect.FullName {
+	if f.ext != nil {
+		if f.ext.fdp.GetPackage() == "" {
+			return protoreflect.FullName(f.fd.GetName())
+		}
+		return protoreflect.FullName(f.ext.fdp.GetPackage() + "." + f.fd.GetName())
+	}
 	return protoreflect.FullName(f.msg.full + "." + f.fd.GetName())
 }
-func (f *VerifField) Index() int { return f.idx }
+func (f *VerifField) IsExtension() bool { return f.ext != nil }
+func (f *VerifField) Index() int        { return f.idx }
 func (f *VerifField) Number() protoreflect.FieldNumber {
 	return protoreflect.FieldNumber(f.fd.GetNumber())
 }
-func (f *VerifField) Kind() protoreflect.Kind                 { return protoreflect.Kind(f.fd.GetType()) }
-func (f *VerifField) ParentFile() protoreflect.FileDescriptor { return f.msg.file }
-func (f *VerifField) Parent() protoreflect.Descriptor         { return f.msg }
+func (f *VerifField) Kind() protoreflect.Kind { return protoreflect.Kind(f.fd.GetType()) }
+func (f *VerifField) ParentFile() protoreflect.FileDescriptor {
+	if f.ext != nil {
+		return f.ext
+	}
+	return f.msg.file
+}
+func (f *VerifField) Parent() protoreflect.Descriptor {
+	if f.ext != nil {
+		return f.ext
+	}
+	return f.msg
+}
 func (f *VerifField) ContainingMessage() protoreflect.MessageDescriptor {
 	return f.msg
 }
@@ -384,7 +416,7 @@ func (f *VerifField) Message() protoreflect.MessageDescriptor {
 	if f.fd.GetType() != descriptorpb.FieldDescriptorProto_TYPE_MESSAGE && f.fd.GetType() != descriptorpb.FieldDescriptorProto_TYPE_GROUP {
 		return nil
 	}
-	m, _ := f.msg.file.u.resolve(f.fd.GetTypeName(), f.msg)
+	m, _ := f.msg.file.u.resolve(f.fd.GetTypeName(), f.scope())
 	if m == nil {
 		return nil
 	}
@@ -394,7 +426,7 @@ func (f *VerifField) Enum() protoreflect.EnumDescriptor {
 	if f.fd.GetType() != descriptorpb.FieldDescriptorProto_TYPE_ENUM {
 		return nil
 	}
-	_, e := f.msg.file.u.resolve(f.fd.GetTypeName(), f.msg)
+	_, e := f.msg.file.u.resolve(f.fd.GetTypeName(), f.scope())
 	if e == nil {
 		return nil
 	}
